@@ -88,7 +88,7 @@ theorem expiryGate_err {cfg : Config} {r : RoleType} {e : Int} {st st' : St} {er
         exact Or.inr ⟨h.1.symm, by omega⟩
   · simp [hs] at h
 
-theorem reqs_req (st : St) (f : FileName) : (st.req f).reqs = f :: st.reqs := by
+theorem reqs_req (st : St) (f : FileName) (n : Nat) : (st.req f n).reqs = f :: st.reqs := by
   simp [St.req, St.reqs, List.filterMap_cons]
 
 structure TsOk (cfg : Config) (srv : Server) (root : Root) (st : St) (ts : Timestamp) (st' : St) : Prop where
